@@ -4,6 +4,7 @@ From Coq Require Import List Arith Reals.
 From BZ Require Import Base.Ops Base.RInst Model.Curve Theory.CurveEvalExtra Theory.LocateTheory.
 From BZ Require Import Model.Triangle Theory.SignSoundR Theory.TriLocate.
 From Coq Require Import Qcanon.
+From Coq Require Import QArith Qabs.
 From BZ Require Import Base.QcInst Model.Locate Theory.Hom Theory.LocateModelTheory.
 Import ListNotations.
 
@@ -43,3 +44,17 @@ Theorem C10_locate_model_finds_points_of_the_curve : forall (rows : list (list Q
   locate_point_py rows p <> LNone.
 Proof. exact locate_model_finds_points_of_the_curve. Qed.
 Print Assumptions C10_locate_model_finds_points_of_the_curve.
+
+(* ... but the FLOATING-POINT round trip of the statement is refuted (known finding F5), as a theorem about the executable model:
+   the closed box test has no slack, so a point within 2^-51 of the curve (the binary64 evaluation at s = 1/8 of the quadratic with
+   binary64 control points (-1.9, -1.3, 2), (-0.8, 1.8, 1.6)) is answered None.  The same input fails on the implementation. *)
+Definition f5_rows : list (list Q) :=
+  [[-4278419646001971 # 2251799813685248; -5854679515581645 # 4503599627370496; 2];
+   [-3602879701896397 # 4503599627370496; 8106479329266893 # 4503599627370496; 3602879701896397 # 2251799813685248]]%Q.
+Definition f5_p : list Q := [-3845651869309337 # 2251799813685248; -6980579422424271 # 36028797018963968]%Q.
+Theorem C10_float_round_trip_refuted :
+  forallb (fun rp => Qle_bool (Qabs (this (bernstein QcOps (fst rp) (Q2Qc (7 # 8)) (Q2Qc (1 # 8))) - snd rp)) (1 # 2251799813685248))
+          (combine (qcm f5_rows) f5_p) = true /\
+  locate_point_py (qcm f5_rows) (qcs f5_p) = LNone.
+Proof. split; vm_compute; reflexivity. Qed.
+Print Assumptions C10_float_round_trip_refuted.
